@@ -23,7 +23,7 @@ ASSUMPTIONS = ["user-supplied purification modules have a zero auxiliary bias (t
 COUNTS = ("states = histories (no merging); transitions = operations executed; traces_validated_against_impl = histories whose every "
           "invariant held")
 OPS = ["reinit", "fit-sgd", "fit-momentum", "fit-adam", "fit-weight-decay", "fit-nobases", "mutate-am", "mutate-ph"]
-MODES = ["sizes", "sizes-default", "sizes-gpu-flag", "module", "module-default-hidden"]
+MODES = ["sizes", "sizes-default", "sizes-gpu-flag", "module", "module-default-hidden", "module-zero-weights"]
 DATA = torch.tensor([[0.0, 1.0, 1.0], [1.0, 1.0, 0.0], [1.0, 0.0, 0.0]], dtype=torch.double)
 BASES = np.array([list("ZZZ"), list("XYZ"), list("YZX")])
 
@@ -60,12 +60,14 @@ def construct(kind, mode, why):
     torch.manual_seed(3)
     if mode.startswith("module"):
         nh = None if mode == "module-default-hidden" else 2
+        zw = mode == "module-zero-weights"  # a documented construction option of the RBM classes
         if kind == "mixed":
-            m = L.PurificationRBM(3, nh, 4, gpu=False)
+            m = L.PurificationRBM(3, nh, 4, zero_weights=zw, gpu=False)
         else:
-            m = L.BinaryRBM(3, nh, gpu=False)
+            m = L.BinaryRBM(3, nh, zero_weights=zw, gpu=False)
         for p in m.parameters():
-            p.data.add_(0.2)
+            if not zw or p.dim() == 1:
+                p.data.add_(0.2)
         if kind == "mixed":
             m.aux_bias.data.zero_()
         want = [(n, H(p)) for n, p in m.named_parameters()]
